@@ -169,7 +169,10 @@ impl TextBuf {
                     self.down.insert(k);
                     return;
                 }
-                if k == "BSpace" {
+                if self.down.contains("LCtrl") {
+                    // a shortcut, not text (Ctrl+Backspace would delete a whole word)
+                    self.text.push((format!("Ctrl+{k}"), self.shift() && k != "Space", self.down.contains("RAlt")));
+                } else if k == "BSpace" {
                     self.dead = false;
                     if self.text.pop().is_none() {
                         self.underflow += 1;
@@ -258,6 +261,7 @@ fn run_model(dict: &Dict, ops: &[Op], d: u64, idle: u64, smart: &str) -> Model {
     let mut smart_sent = false;
     let mut hold_since_activation: Option<u64> = None;
     let (mut lsft, mut rsft, mut altgr) = (false, false, false);
+    let mut ctrl = false;
     // events are taken from the input queue one per ms: the model works with the ms at which each
     // event is processed, not the ms at which it arrived
     let mut arrival = 0u64;
@@ -282,6 +286,13 @@ fn run_model(dict: &Dict, ops: &[Op], d: u64, idle: u64, smart: &str) -> Model {
                     }
                     "RAlt" => {
                         altgr = true;
+                        continue;
+                    }
+                    // a shortcut is being typed: zippychord does not look at ctrl itself, but what
+                    // follows is not text - a smart space must not be erased for it
+                    "LCtrl" => {
+                        ctrl = true;
+                        smart_sent = false;
                         continue;
                     }
                     // the user's own backspace: zippychord does not look at it; it removes what is
@@ -349,7 +360,8 @@ fn run_model(dict: &Dict, ops: &[Op], d: u64, idle: u64, smart: &str) -> Model {
                     m.smart_space_erased += 1;
                 }
                 smart_sent = false;
-                let typed: Ch = (k.clone(), shift && k != "Space", altgr);
+                // (with ctrl held the key is a shortcut, written as a character of its own here)
+                let typed: Ch = (if ctrl { format!("Ctrl+{k}") } else { k.clone() }, shift && k != "Space", altgr);
                 if !enabled {
                     m.text.push(typed);
                     m.passthrough_presses += 1;
@@ -478,6 +490,10 @@ fn run_model(dict: &Dict, ops: &[Op], d: u64, idle: u64, smart: &str) -> Model {
                     }
                     "RAlt" => {
                         altgr = false;
+                        continue;
+                    }
+                    "LCtrl" => {
+                        ctrl = false;
                         continue;
                     }
                     // (zippychord does not look at the user's backspace at all)
@@ -877,6 +893,14 @@ impl Prop for C20 {
                     ops.push(Op::Release(bs));
                     ops.push(Op::Gap(r.range(1, 6) as u32));
                 }
+                if long_mod.is_none() && r.chance(200) {
+                    // a shortcut (ctrl + ';', never a chord key): passes through as it is, also
+                    // right after a smart space
+                    let (lc, sc) = (oscode_of("lctl"), code(';'));
+                    ops.extend([Op::Press(lc), Op::Gap(2), Op::Press(sc), Op::Gap(2), Op::Release(sc), Op::Gap(1), Op::Release(lc)]);
+                    ops.push(Op::Gap(r.range(1, 6) as u32));
+                    continue;
+                }
                 let p = *r.pick(&['.', ',', ';']);
                 ops.push(Op::Press(code(p)));
                 ops.push(Op::Gap(2));
@@ -922,7 +946,7 @@ impl Prop for C20 {
         for op in &case.ops {
             if let Op::Press(c) = op {
                 let k = code_name(*c);
-                let ok = k.len() == 1 || k.starts_with("Kb") || matches!(k.as_str(), "Space" | "Dot" | "Comma" | "SColon" | "LShift" | "RShift" | "RAlt" | "BSpace");
+                let ok = k.len() == 1 || k.starts_with("Kb") || matches!(k.as_str(), "Space" | "Dot" | "Comma" | "SColon" | "LShift" | "RShift" | "RAlt" | "BSpace" | "LCtrl");
                 if !ok {
                     return RunOut::skip("history-shape-not-of-this-population");
                 }
